@@ -10,7 +10,7 @@ static const uint32_t RID[3] = { 0x201, 0x301, 0x401 };
 static const uint8_t  MLEN[3] = { 4, 2, 4 };
 static const uint8_t  PAT[2][8] = { { 0xA1, 0xA2, 0xA3, 0xA4, 0xA5, 0xA6, 0xA7, 0xA8 }, { 0x5F, 0x5E, 0x5D, 0x5C, 0x5B, 0x5A, 0x59, 0x58 } };
 
-enum { E_FRAME0 = 0 /* 3 ch x 2 pat x 2 dlc = 12 */, E_NEIGH0 = 12 /* 3 */, E_SYNC = 15, E_LOCAL, E_START, E_PREOP, E_STOP, E_TICK, E_N };
+enum { E_FRAME0 = 0 /* 3 ch x 2 pat x 2 dlc = 12 */, E_NEIGH0 = 12 /* 3 */, E_SYNC = 15, E_LOCAL, E_START, E_PREOP, E_STOP, E_TICK, E_SYNCWR, E_N };
 
 static const char *cfg_name(int c) { static char b[48]; static const char *const K[] = { "absent", "async", "sync", "invalid" }; snprintf(b, sizeof b, "ch0=%s ch1=%s ch2=%s%s", K[c % 4], K[(c / 4) % 4], K[(c / 16) % 4], c >= 64 ? " OPERATIONAL" : ""); return b; }
 
@@ -46,7 +46,7 @@ static const char *ev_name(int e)
     static char b[64];
     if (e < E_NEIGH0) snprintf(b, sizeof b, "RPDO ch%d frame pattern %c DLC %s", e / 4, 'A' + (e / 2) % 2, e % 2 ? "mapped length" : "8");
     else if (e < E_SYNC) snprintf(b, sizeof b, "frame on neighbouring id %03X", RID[e - E_NEIGH0] + 1);
-    else snprintf(b, sizeof b, "%s", (const char *[]){ "SYNC", "local write", "NMT start", "NMT pre-op", "NMT stop", "tick" }[e - E_SYNC]);
+    else snprintf(b, sizeof b, "%s", (const char *[]){ "SYNC", "local write", "NMT start", "NMT pre-op", "NMT stop", "tick", "refused write 1005h = 40000081h (producer on another identifier, no cycle time)" }[e - E_SYNC]);
     return b;
 }
 
@@ -78,6 +78,11 @@ static int step(int e)
     case E_PREOP: M.op = 0; for (int ch = 0; ch < 3; ch++) if (M.pend[ch]) M.pend[ch] = 2; nc_nmt(128, 0); break;
     case E_STOP:  M.op = 0; for (int ch = 0; ch < 3; ch++) if (M.pend[ch]) M.pend[ch] = 2; nc_nmt(2, 0); break;
     case E_TICK: w_tick(&Node, 1); break;
+    case E_SYNCWR: {         /* 1006h is 0: the producer cannot be started, the write is refused - and the SYNC identifier the RPDOs wait for stays 80h */
+        CO_ERR er = CODictWrLong(&Node.Dict, CO_DEV(0x1005, 0), 0x40000081u);
+        if (er == CO_ERR_NONE) mc_fail("rpdo-sync-id-write", "write of 40000081h to 1005h accepted although 1006h is 0");
+        (void)CONodeGetErr(&Node);
+        break; }
     default: break;
     }
     (void)CONodeGetErr(&Node);
